@@ -329,6 +329,20 @@ def c16_variants(sc, rng, max_multi=3):
 
 def generate(prop, rng, seed, index, tier):
     sc = gen.generate(rng, prop, seed, index, 'thorough' if tier == 'thorough' else 'quick')
+    if prop == 'C01' and not sc.get('feedback'):
+        # connect() of a branch that is attached already: no second delivery, and the branch keeps its place
+        # among its siblings (the order in which they were attached).  Drawn from a private generator so that
+        # the rest of the scenario stream is what it was.
+        r2 = random.Random(seed * 1000003 + index)
+        if r2.random() < 0.2:
+            kids = {}
+            for n in sc['graph']:
+                if len(n.get('up', [])) == 1 and 'attach_at' not in n:
+                    kids.setdefault(n['up'][0], []).append(n)
+            edges = [(u, n['id']) for u, L in sorted(kids.items()) if len(L) >= 2
+                     for n in L[:-1] if n['op'] in ('map', 'filter', 'sink')]
+            if edges:
+                sc['reconnect'] = [list(r2.choice(edges))]
     return sc
 
 
